@@ -47,6 +47,10 @@ type frame struct{ fn, at string }
 
 func shortFn(fn string) string {
 	fn = strings.TrimSuffix(fn, "()")
+	// harness functions named resultOf<Type><Method> stand for "a caller using what <Method> returned"
+	if strings.HasPrefix(fn, "main.resultOf") {
+		return "caller-of-" + strings.TrimPrefix(fn, "main.resultOf")
+	}
 	if i := strings.LastIndex(fn, "/"); i >= 0 {
 		fn = fn[i+1:]
 	}
